@@ -13,6 +13,8 @@
 #include <memory>
 #include <optional>
 #include <string>
+#include <sstream>
+#include <iterator>
 #include <vector>
 
 namespace scn {
@@ -184,7 +186,14 @@ inline void publisher_string_values(const vf::opts &o, vf::report &R, uint64_t c
             int n = 1 + (int)r.below(6);
             for (int k = 0; k < n && err.empty(); k++) {
                 std::string text = sv_text(cn, 10 + k);
-                switch (r.below(4)) {
+                switch (r.below(5)) {
+                case 4: { // batch from SINGLE-PASS input iterators (a stream): the range can be walked exactly once
+                    std::string a = "stream-" + std::to_string(cn) + "-" + std::to_string(k) + "-first-word-long-enough-for-the-heap", b = a + "/second", c = a + "/third";
+                    std::istringstream is(a + " " + b + " " + c);
+                    pub.publish(std::istream_iterator<std::string>(is), std::istream_iterator<std::string>()); desc += "publish(input iterators, 3 words) ";
+                    published.push_back(a); published.push_back(b); published.push_back(c);
+                    break;
+                }
                 case 0: { std::string lv = text; pub.publish(lv); desc += "publish(lvalue) "; published.push_back(text); if (!sv_intact(lv, text)) err = "publish(lvalue) changed the caller's object"; break; }
                 case 1: { std::string lv = text; pub.publish(std::move(lv)); desc += "publish(moved) "; published.push_back(text); break; }
                 case 2: pub.publish(std::string(text)); desc += "publish(temporary) "; published.push_back(text); break;
